@@ -43,6 +43,7 @@ type Frame struct {
 	tail    bool // ret holds fn+args of a pending tail call
 	tailFn  Value
 	viaTail bool       // this activation was entered by a tail call
+	tails   int        // how many activations it replaced (consecutive tail calls): each still counts as a debug level
 	actives []actLocal // named locals in scope, in declaration order (for the debug library)
 }
 
@@ -67,6 +68,7 @@ type thread struct {
 }
 
 type Interp struct {
+	pendingTails int // tail-call count handed from Call to callClosure
 	G          *Table
 	StringMeta *Table
 	Registry   map[string]*Table
@@ -231,16 +233,19 @@ func (in *Interp) metaField(v Value, ev string) Value {
 // Call calls fn with args and returns all results (proper tail calls are trampolined).
 func (in *Interp) Call(fn Value, args []Value) []Value {
 	tailed := false
+	ntails := 0
 	for {
 		in.step()
 		switch f := fn.(type) {
 		case *Closure:
+			in.pendingTails = ntails
 			res, tfn, targs, tail := in.callClosure(f, args, tailed)
 			if !tail {
 				return res
 			}
 			fn, args = tfn, targs
 			tailed = true
+			ntails++
 			in.class("tailcall")
 		case *Builtin:
 			return in.callBuiltin(f, args, tailed)
@@ -276,7 +281,8 @@ func (in *Interp) callClosure(c *Closure, args []Value, tailed bool) (res []Valu
 	}
 	in.Stat.Calls++
 	fn := c.Fn
-	fr := &Frame{cl: c, slots: make([]*Cell, fn.NumSlots), lo: fn.Line, hi: fn.Line, viaTail: tailed}
+	fr := &Frame{cl: c, slots: make([]*Cell, fn.NumSlots), lo: fn.Line, hi: fn.Line, viaTail: tailed, tails: in.pendingTails}
+	in.pendingTails = 0
 	np := len(fn.ParamSlots)
 	for i, s := range fn.ParamSlots {
 		var v Value
